@@ -491,7 +491,13 @@ impl TransferControl {
             // would otherwise spin forever. Clamp so the first
             // chunk always passes; the practical case
             // (chunk_size <= window_bytes) is unaffected.
-            if in_flight == 0 || in_flight + chunk_len <= guard.window_bytes {
+            // `in_flight` and `chunk_len` are both 64-bit: a sum that does
+            // not fit cannot fit the window either.
+            let fits = match in_flight.checked_add(chunk_len) {
+                Some(total) => total <= guard.window_bytes,
+                None => false,
+            };
+            if in_flight == 0 || fits {
                 return Ok(());
             }
             let now = Instant::now();
